@@ -12,7 +12,7 @@ import (
 )
 
 func init() {
-	register("C17", "Structural clauses of the tar export, decided on all paths of WriteTar's callback: the header is built by tar.FileInfoHeader from the view's FileInfo and link name, then Name (slash form, trailing slash for directories), Uid, Gid, Devmajor, Devminor and Linkname are overridden from the stat before WriteHeader; entries with a link name get size 0 and the symlink or hard-link type according to the mode; every xattr becomes a SCHILY.xattr.<key> PAX record; a payload is copied (checked, from Open of the walked path, closed) only for regular, non-empty, non-link members; the archive is closed as the success return after a checked walk. Only directories get a trailing slash; an entry is written exactly when its info carries a stat; the FileInfo view the header is built from (StatInfo) projects the stat's own size, mode, name and mtime (seconds, then nanoseconds). Device numbers are decoded from the device word in full (shared with C02). Does not decide well-formedness (archive/tar, trusted) nor the round trip.", runC17)
+	register("C17", "Structural clauses of the tar export, decided on all paths of WriteTar's callback: the header is built by tar.FileInfoHeader from the view's FileInfo and link name, then Name (slash form, trailing slash for directories), Uid, Gid, Devmajor, Devminor and Linkname are overridden from the stat before WriteHeader; entries with a link name get size 0 and the symlink or hard-link type according to the mode; every xattr becomes a SCHILY.xattr.<key> PAX record; a payload is copied (checked, from Open of the walked path, closed) only for regular, non-empty, non-link members; the archive is closed as the success return after a checked walk. Only directories get a trailing slash; an entry is written exactly when its info carries a stat; the FileInfo view the header is built from (StatInfo) projects the stat's own size, mode, name and mtime (seconds, then nanoseconds). Device numbers are decoded from the device word in full (shared with C02). The link name of a hard-link member is the full path of the group's first member (the inode map records paths; shared with C09). Does not decide well-formedness (archive/tar, trusted) nor the round trip.", runC17)
 }
 
 func runC17(c *Ctx) {
@@ -41,6 +41,9 @@ func runC17(c *Ctx) {
 	if c.Unix() {
 		// device members carry the numbers of the nodes: decoded in full (shared with C02)
 		r02_8(c, "R17.10")
+		// a link member names an earlier member by its full name: the inode
+		// map behind Stat.Linkname records the first name's path (shared with C09)
+		r09_4(c, "R17.11")
 	}
 }
 
